@@ -75,4 +75,20 @@ CHECKS = {
              "checks": ["c18-model", "c18-once-burst"]},
         ],
     },
+    "C04": {
+        "level": "exploration",
+        "groups": [
+            {"name": "c04", "run": "^TestC04_", "shards": {"quick": 8, "thorough": 16},
+             "timeout": {"quick": 900, "thorough": 3000},
+             "checks": ["c04-adapter-enum", "c04-adapter-history"]},
+        ],
+    },
+    "C08": {
+        "level": "exploration",
+        "groups": [
+            {"name": "c08", "run": "^TestC08_", "shards": {"quick": 8, "thorough": 16},
+             "timeout": {"quick": 900, "thorough": 3000},
+             "checks": ["c08-adapter-history"]},
+        ],
+    },
 }
